@@ -69,3 +69,490 @@ theorem good_of_noFault {p : P} {e : Option Err} (h : NoFault p) (he : e ≠ som
   Or.inl ⟨he, h⟩
 
 end SF.Cbor.Parse
+
+namespace SF.Cbor.Parse
+open SF SF.Cbor
+
+set_option hygiene false in
+/-- case split on a visitor call made under `NoFault`: it succeeded (still `NoFault`), or it
+returned the injected error and delivery is `Stopped` -/
+macro "visit_fault " X:term:max e:term:max h:term:max : tactic =>
+  `(tactic| (rcases hvis : visit $X $e with ⟨q, err⟩
+             have hv := visit_good $X $e $h
+             rw [hvis] at hv
+             rcases hv with ⟨h1, hq⟩ | ⟨h1, hq⟩ <;> simp only at h1 hq <;> subst h1 <;> simp only []))
+
+theorem stopped_good {q : P} (h : Stopped q) : GoodOut q (some .visitor) := Or.inr ⟨rfl, h⟩
+
+theorem visitAll_good (p : P) (es : List Ev) (h : NoFault p) :
+    GoodOut (visitAll p es).1 (visitAll p es).2 ∧ ((visitAll p es).2 = none ∨ (visitAll p es).2 = some .visitor) := by
+  induction es generalizing p with
+  | nil => exact ⟨good_of_noFault h (by simp [visitAll]), Or.inl rfl⟩
+  | cons e es ih =>
+    simp only [visitAll]
+    visit_fault p e h
+    · exact ih q hq
+    · exact ⟨stopped_good hq, by simp⟩
+
+theorem onValue_good (n : Nat) (p : P) (h : NoFault p) : GoodOut (onValue n p).1 (onValue n p).2.2 := by
+  induction n generalizing p with
+  | zero =>
+    unfold onValue
+    simp only
+    split
+    · split
+      · exact good_of_noFault (noFault_congr (by simp) (by simp) h) (by simp)
+      · have hd : NoFault (decLen p 1) := noFault_congr (by simp) (by simp) h
+        visit_fault (decLen p 1) (if p.state.current.major == majorArr then Ev.arrEnd else Ev.objEnd) hd
+        · exact good_of_noFault (noFault_congr (by simp) (by simp) hq) (by simp)
+        · exact stopped_good hq
+    · split <;> exact good_of_noFault h (by simp)
+  | succ n ih =>
+    unfold onValue
+    simp only
+    split
+    · split
+      · exact good_of_noFault (noFault_congr (by simp) (by simp) h) (by simp)
+      · have hd : NoFault (decLen p 1) := noFault_congr (by simp) (by simp) h
+        visit_fault (decLen p 1) (if p.state.current.major == majorArr then Ev.arrEnd else Ev.objEnd) hd
+        · exact ih _ (noFault_congr (by simp) (by simp) hq)
+        · exact stopped_good hq
+    · split <;> exact good_of_noFault h (by simp)
+
+theorem popState_good (n : Nat) (p : P) (h : NoFault p) : GoodOut (popState n p).1 (popState n p).2.2 := by
+  cases n with
+  | zero => simp only [popState]; exact good_of_noFault (noFault_congr (by simp) (by simp) h) (by simp)
+  | succ n => simp only [popState]; exact onValue_good n _ (noFault_congr (by simp) (by simp) h)
+
+theorem handleLenD_good (isArr : Bool) (n : Nat) (p : P) (h : NoFault p) :
+    GoodOut (handleLenD isArr n p).1 (handleLenD isArr n p).2.2 := by
+  unfold handleLenD
+  split
+  · exact good_of_noFault h (by simp)
+  · visit_fault p (if isArr then Ev.arrEnd else Ev.objEnd) h
+    · exact popState_good _ _ (noFault_congr (by simp) (by simp) hq)
+    · exact stopped_good hq
+
+theorem scalar_good (p : P) (e : Ev) (rest : Bytes) (h : NoFault p) :
+    GoodOut (scalar p e rest).p (scalar p e rest).err := by
+  unfold scalar
+  visit_fault p e h
+  · simp only [onValueR]; exact onValue_good _ _ hq
+  · exact stopped_good hq
+
+theorem scalarPop_good (p : P) (e : Ev) (rest : Bytes) (h : NoFault p) :
+    GoodOut (scalarPop p e rest).p (scalarPop p e rest).err := by
+  unfold scalarPop
+  visit_fault p e h
+  · simp only [popStateR]; exact popState_good _ _ hq
+  · exact stopped_good hq
+
+theorem initByteSeq_good (p : P) (a b : UInt8) (bs : Bytes) (h : NoFault p) :
+    GoodOut (initByteSeq p a b bs).p (initByteSeq p a b bs).err := by
+  unfold initByteSeq
+  split
+  · exact good_of_noFault (noFault_congr (by simp [pushLen]) (by simp [pushLen]) h) (by simp)
+  · split
+    · exact good_of_noFault h (by simp)
+    · exact good_of_noFault (noFault_congr (by simp) (by simp) h) (by simp)
+
+theorem initSub_good (p : P) (a b : UInt8) (bs : Bytes) (h : NoFault p) :
+    GoodOut (initSub p a b bs).p (initSub p a b bs).err := by
+  unfold initSub
+  split
+  · exact good_of_noFault (noFault_congr (by simp) (by simp) h) (by simp)
+  · split
+    · exact good_of_noFault (noFault_congr (by simp [pushLen]) (by simp [pushLen]) h) (by simp)
+    · split
+      · exact good_of_noFault h (by simp)
+      · exact good_of_noFault (noFault_congr (by simp) (by simp) h) (by simp)
+
+theorem stepValue_good (p : P) (b : Bytes) (h : NoFault p) :
+    GoodOut (stepValue p b).p (stepValue p b).err := by
+  unfold stepValue
+  split
+  · exact good_of_noFault h (by simp)
+  · simp only
+    repeat' split
+    all_goals first
+      | exact scalar_good _ _ _ h
+      | exact initByteSeq_good _ _ _ _ h
+      | exact initSub_good _ _ _ _ h
+      | exact good_of_noFault h (by simp)
+      | exact good_of_noFault (noFault_congr (by simp) (by simp) h) (by simp)
+
+theorem getArg_keeps (p : P) (b : Bytes) (w : Nat) (r : P × Bytes × Option Nat) (hr : getArg p b w = .ok r) :
+    r.1.evs = p.evs ∧ r.1.failAt = p.failAt := by
+  unfold getArg at hr
+  split at hr
+  · split at hr
+    · simp at hr
+    · injection hr with hr; subst hr; exact ⟨rfl, rfl⟩
+  · injection hr with hr; subst hr; simp
+
+end SF.Cbor.Parse
+
+namespace SF.Cbor.Parse
+open SF SF.Cbor
+
+theorem stepUint_good (p : P) (b : Bytes) (h : NoFault p) : GoodOut (stepUint p b).p (stepUint p b).err := by
+  unfold stepUint
+  split
+  · exact good_of_noFault h (by simp)
+  · rename_i w _
+    cases hg : getArg p b w with
+    | error e =>
+      simp only
+      have : e = Err.panic := by
+        unfold getArg at hg; split at hg
+        · split at hg
+          · injection hg with hg; exact hg.symm
+          · simp at hg
+        · simp at hg
+      subst this; exact good_of_noFault h (by simp)
+    | ok r =>
+      obtain ⟨q, rest, v⟩ := r
+      have hk := getArg_keeps p b w _ hg
+      have hq : NoFault q := noFault_congr hk.1 hk.2 h
+      cases v with
+      | none => exact good_of_noFault hq (by simp)
+      | some v => simp only; exact scalarPop_good _ _ _ hq
+
+theorem stepNeg_good (p : P) (b : Bytes) (h : NoFault p) : GoodOut (stepNeg p b).p (stepNeg p b).err := by
+  unfold stepNeg
+  split
+  · exact good_of_noFault h (by simp)
+  · rename_i w _
+    cases hg : getArg p b w with
+    | error e =>
+      simp only
+      have : e = Err.panic := by
+        unfold getArg at hg; split at hg
+        · split at hg
+          · injection hg with hg; exact hg.symm
+          · simp at hg
+        · simp at hg
+      subst this; exact good_of_noFault h (by simp)
+    | ok r =>
+      obtain ⟨q, rest, v⟩ := r
+      have hk := getArg_keeps p b w _ hg
+      have hq : NoFault q := noFault_congr hk.1 hk.2 h
+      cases v with
+      | none => exact good_of_noFault hq (by simp)
+      | some v =>
+        simp only
+        cases hn : negEvent w v with
+        | error e =>
+          simp only
+          have : e = Err.intRange := by
+            unfold negEvent at hn
+            repeat' split at hn
+            all_goals (first | (injection hn with hn; exact hn.symm) | simp at hn)
+          subst this; exact good_of_noFault hq (by simp)
+        | ok ev => simp only; exact scalarPop_good _ _ _ hq
+
+theorem stepLen_good (p : P) (b : Bytes) (h : NoFault p) : GoodOut (stepLen p b).p (stepLen p b).err := by
+  unfold stepLen
+  split
+  · exact good_of_noFault h (by simp)
+  · rename_i w _
+    cases hg : getArg p b w with
+    | error e =>
+      simp only
+      have : e = Err.panic := by
+        unfold getArg at hg; split at hg
+        · split at hg
+          · injection hg with hg; exact hg.symm
+          · simp at hg
+        · simp at hg
+      subst this; exact good_of_noFault h (by simp)
+    | ok r =>
+      obtain ⟨q, rest, v⟩ := r
+      have hk := getArg_keeps p b w _ hg
+      have hq : NoFault q := noFault_congr hk.1 hk.2 h
+      cases v with
+      | none => exact good_of_noFault hq (by simp)
+      | some v =>
+        simp only
+        split
+        · exact good_of_noFault (noFault_congr (by simp [pushLen]) (by simp [pushLen]) hq) (by simp)
+        · exact good_of_noFault (noFault_congr (by simp [pushLen]) (by simp [pushLen]) hq) (by simp)
+
+theorem stepFloat_good (p : P) (b : Bytes) (w : Nat) (h : NoFault p) :
+    GoodOut (stepFloat p b w).p (stepFloat p b w).err := by
+  unfold stepFloat
+  simp only
+  have hc : NoFault (collectP p b w).1 := noFault_congr (by simp) (by simp) h
+  split
+  · exact good_of_noFault hc (by simp)
+  · rename_i t _
+    visit_fault (collectP p b w).1 (if w == 4 then Ev.f32 (UInt32.ofNat (beNat t)) else Ev.f64 (UInt64.ofNat (beNat t))) hc
+    · simp only [popStateR]; exact popState_good _ _ hq
+    · exact stopped_good hq
+
+theorem stepBytesGo_good (p : P) (b : Bytes) (h : NoFault p) :
+    GoodOut (stepBytesGo p b).p (stepBytesGo p b).err := by
+  unfold stepBytesGo
+  simp only []
+  have hva : ∀ (X : P) (es : List Ev) (q : P) (r : Option Err), NoFault X → visitAll X es = (q, r) →
+      GoodOut q r ∧ (r = none ∨ r = some .visitor) := by
+    intro X es q r hX hh; have := visitAll_good X es hX; rw [hh] at this; exact this
+  have hp' : NoFault (if b.length ≥ p.length.current.toNat then p
+      else decLen p ↑(if b.length ≥ p.length.current.toNat then p.length.current.toNat else b.length)) := by
+    split
+    · exact h
+    · exact noFault_congr (by simp) (by simp) h
+  split
+  · rename_i q e heq
+    obtain ⟨hg, he⟩ := hva _ _ _ _ hp' heq
+    rcases he with he | he
+    · simp at he
+    · have he' : e = Err.visitor := by simpa using he
+      subst he'
+      rcases hg with ⟨hne, _⟩ | ⟨_, hs⟩
+      · exact absurd rfl hne
+      · exact stopped_good hs
+  · rename_i q heq
+    obtain ⟨hg, _⟩ := hva _ _ _ _ hp' heq
+    have hq : NoFault q := by
+      rcases hg with ⟨_, hq⟩ | ⟨he, _⟩
+      · exact hq
+      · simp at he
+    split
+    · rcases hvis2 : visit q Ev.arrEnd with ⟨q2, err2⟩
+      have hv2 := visit_good q Ev.arrEnd hq
+      rw [hvis2] at hv2
+      rcases hv2 with ⟨h2, hq2⟩ | ⟨h2, hq2⟩ <;> simp only at h2 hq2 <;> subst h2 <;> simp only []
+      · simp only [popStateR]; exact popState_good _ _ (noFault_congr (by simp) (by simp) hq2)
+      · exact Or.inr ⟨rfl, stopped_congr (by simp) (by simp) hq2⟩
+    · exact good_of_noFault hq (by simp)
+
+theorem stepBytes_good (p : P) (b : Bytes) (h : NoFault p) : GoodOut (stepBytes p b).p (stepBytes p b).err := by
+  unfold stepBytes
+  split
+  · visit_fault p (Ev.arrStart p.length.current BT.byte) h
+    · exact stepBytesGo_good _ _ (noFault_congr rfl rfl hq)
+    · exact stopped_good hq
+  · exact stepBytesGo_good _ _ h
+
+theorem stepText_good (p : P) (b : Bytes) (h : NoFault p) : GoodOut (stepText p b).p (stepText p b).err := by
+  unfold stepText
+  simp only
+  have hc : NoFault (collectP p b p.length.current.toNat).1 := noFault_congr (by simp) (by simp) h
+  split
+  · exact good_of_noFault hc (by simp)
+  · rename_i t _
+    visit_fault (popLen (collectP p b p.length.current.toNat).1) (Ev.str t) (noFault_congr (by simp) (by simp) hc)
+    · simp only [popStateR]; exact popState_good _ _ hq
+    · exact stopped_good hq
+
+theorem stepKey_good (p : P) (b : Bytes) (h : NoFault p) : GoodOut (stepKey p b).p (stepKey p b).err := by
+  unfold stepKey
+  simp only
+  have hc : NoFault (collectP p b p.length.current.toNat).1 := noFault_congr (by simp) (by simp) h
+  split
+  · exact good_of_noFault hc (by simp)
+  · rename_i t _
+    visit_fault (collectP p b p.length.current.toNat).1 (Ev.key t) hc
+    · exact good_of_noFault (noFault_congr (by simp) (by simp) hq) (by simp)
+    · exact stopped_good hq
+
+theorem initMapKey_good (p : P) (b : Bytes) (h : NoFault p) : GoodOut (initMapKey p b).p (initMapKey p b).err := by
+  unfold initMapKey
+  cases b with
+  | nil => exact good_of_noFault h (by simp)
+  | cons b0 bs =>
+    simp only
+    split
+    · exact good_of_noFault h (by simp)
+    · split
+      · exact good_of_noFault h (by simp)
+      · exact initByteSeq_good _ _ _ _ h
+
+theorem stepArray_good (p : P) (b : Bytes) (h : NoFault p) : GoodOut (stepArray p b).p (stepArray p b).err := by
+  unfold stepArray
+  split
+  · exact stepValue_good _ _ h
+  · simp only; exact handleLenD_good _ _ _ h
+
+theorem stepMap_good (p : P) (b : Bytes) (h : NoFault p) : GoodOut (stepMap p b).p (stepMap p b).err := by
+  unfold stepMap
+  split
+  · split
+    · exact initMapKey_good _ _ h
+    · exact good_of_noFault h (by simp)
+  · simp only; exact handleLenD_good _ _ _ h
+
+theorem indefArr_good (p : P) (b : Bytes) (h : NoFault p) : GoodOut (indefArr p b).p (indefArr p b).err := by
+  unfold indefArr
+  cases b with
+  | nil => exact good_of_noFault h (by simp)
+  | cons b0 bs =>
+    simp only
+    split
+    · visit_fault p Ev.arrEnd h
+      · simp only [popStateR]; exact popState_good _ _ hq
+      · exact stopped_good hq
+    · exact stepValue_good _ _ h
+
+theorem indefMap_good (p : P) (b : Bytes) (h : NoFault p) : GoodOut (indefMap p b).p (indefMap p b).err := by
+  unfold indefMap
+  cases b with
+  | nil => exact good_of_noFault h (by simp)
+  | cons b0 bs =>
+    simp only
+    split
+    · visit_fault p Ev.objEnd h
+      · simp only [popStateR]; exact popState_good _ _ hq
+      · exact stopped_good hq
+    · exact initMapKey_good _ _ h
+
+/-- ONE STEP under a possibly failing visitor: starting without a fault, either no fault
+occurred (and any error is the parser's own), or the visitor failed, the step returned THE
+VISITOR'S error, and exactly the failing event was the last one delivered -/
+theorem execStep_good (p : P) (b : Bytes) (h : NoFault p) (herr : p.err ≠ some .visitor) :
+    GoodOut (execStep p b).p (execStep p b).err := by
+  unfold execStep
+  simp only []
+  by_cases hX : (p.state.current.major == stFail) = true
+  · simp only [hX, if_true]
+    exact good_of_noFault h herr
+  simp only [hX, Bool.false_eq_true, if_false]
+  clear hX
+  by_cases hX : (p.state.current.major == stValue) = true
+  · simp only [hX, if_true]
+    exact stepValue_good _ _ h
+  simp only [hX, Bool.false_eq_true, if_false]
+  clear hX
+  by_cases hX : (p.state.current.major == stLen) = true
+  · simp only [hX, if_true]
+    exact stepLen_good _ _ h
+  simp only [hX, Bool.false_eq_true, if_false]
+  clear hX
+  by_cases hX : (p.state.current.major == majorUint) = true
+  · simp only [hX, if_true]
+    exact stepUint_good _ _ h
+  simp only [hX, Bool.false_eq_true, if_false]
+  clear hX
+  by_cases hX : (p.state.current.major == majorNeg) = true
+  · simp only [hX, if_true]
+    exact stepNeg_good _ _ h
+  simp only [hX, Bool.false_eq_true, if_false]
+  clear hX
+  by_cases hX : (p.state.current.major == codeSingleFloat) = true
+  · simp only [hX, if_true]
+    exact stepFloat_good _ _ _ h
+  simp only [hX, Bool.false_eq_true, if_false]
+  clear hX
+  by_cases hX : (p.state.current.major == codeDoubleFloat) = true
+  · simp only [hX, if_true]
+    exact stepFloat_good _ _ _ h
+  simp only [hX, Bool.false_eq_true, if_false]
+  clear hX
+  by_cases hX : (p.state.current.major == (majorBytes ||| stStartX)) = true
+  · simp only [hX, if_true]
+    split
+    · visit_fault p (Ev.arrStart 0 BT.byte) h
+      · rcases hvis2 : visit q Ev.arrEnd with ⟨q2, err2⟩
+        have hv2 := visit_good q Ev.arrEnd hq
+        rw [hvis2] at hv2
+        rcases hv2 with ⟨h2, hq2⟩ | ⟨h2, hq2⟩ <;> simp only at h2 hq2 <;> subst h2 <;> simp only []
+        · simp only [popStateR]; exact popState_good _ _ (noFault_congr (by simp) (by simp) hq2)
+        · exact Or.inr ⟨rfl, stopped_congr (by simp) (by simp) hq2⟩
+      · exact stopped_good hq
+    · split
+      · exact good_of_noFault (noFault_congr (by simp) (by simp) h) (by simp)
+      · exact stepBytes_good _ _ (noFault_congr (by simp) (by simp) h)
+  simp only [hX, Bool.false_eq_true, if_false]
+  clear hX
+  by_cases hX : (p.state.current.major == majorBytes) = true
+  · simp only [hX, if_true]
+    exact stepBytes_good _ _ h
+  simp only [hX, Bool.false_eq_true, if_false]
+  clear hX
+  by_cases hX : (p.state.current.major == (majorText ||| stStartX)) = true
+  · simp only [hX, if_true]
+    split
+    · visit_fault (popLen p) (Ev.str []) (noFault_congr (by simp) (by simp) h)
+      · simp only [popStateR]; exact popState_good _ _ hq
+      · exact stopped_good hq
+    · split
+      · exact good_of_noFault (noFault_congr (by simp) (by simp) h) (by simp)
+      · exact stepText_good _ _ (noFault_congr (by simp) (by simp) h)
+  simp only [hX, Bool.false_eq_true, if_false]
+  clear hX
+  by_cases hX : (p.state.current.major == majorText) = true
+  · simp only [hX, if_true]
+    exact stepText_good _ _ h
+  simp only [hX, Bool.false_eq_true, if_false]
+  clear hX
+  by_cases hX : (p.state.current.major == stStartArr) = true
+  · simp only [hX, if_true]
+    visit_fault p (Ev.arrStart p.length.current BT.any) h
+    · exact stepArray_good _ _ (noFault_congr (by simp) (by simp) hq)
+    · exact stopped_good hq
+  simp only [hX, Bool.false_eq_true, if_false]
+  clear hX
+  by_cases hX : (p.state.current.major == majorArr) = true
+  · simp only [hX, if_true]
+    exact stepArray_good _ _ h
+  simp only [hX, Bool.false_eq_true, if_false]
+  clear hX
+  by_cases hX : (p.state.current.major == stStartIndefArr) = true
+  · simp only [hX, if_true]
+    visit_fault p (Ev.arrStart (-1) BT.any) h
+    · exact indefArr_good _ _ (noFault_congr (by simp) (by simp) hq)
+    · exact stopped_good hq
+  simp only [hX, Bool.false_eq_true, if_false]
+  clear hX
+  by_cases hX : (p.state.current.major == (majorArr ||| stIndef)) = true
+  · simp only [hX, if_true]
+    exact indefArr_good _ _ h
+  simp only [hX, Bool.false_eq_true, if_false]
+  clear hX
+  by_cases hX : (p.state.current.major == stStartMap) = true
+  · simp only [hX, if_true]
+    visit_fault p (Ev.objStart p.length.current BT.any) h
+    · exact stepMap_good _ _ (noFault_congr (by simp) (by simp) hq)
+    · exact stopped_good hq
+  simp only [hX, Bool.false_eq_true, if_false]
+  clear hX
+  by_cases hX : (p.state.current.major == majorMap) = true
+  · simp only [hX, if_true]
+    exact stepMap_good _ _ h
+  simp only [hX, Bool.false_eq_true, if_false]
+  clear hX
+  by_cases hX : (p.state.current.major == stStartIndefMap) = true
+  · simp only [hX, if_true]
+    visit_fault p (Ev.objStart (-1) BT.any) h
+    · exact indefMap_good _ _ (noFault_congr (by simp) (by simp) hq)
+    · exact stopped_good hq
+  simp only [hX, Bool.false_eq_true, if_false]
+  clear hX
+  by_cases hX : (p.state.current.major == (majorMap ||| stIndef)) = true
+  · simp only [hX, if_true]
+    exact indefMap_good _ _ h
+  simp only [hX, Bool.false_eq_true, if_false]
+  clear hX
+  by_cases hX : (p.state.current.major == (stKey ||| stStartX)) = true
+  · simp only [hX, if_true]
+    split
+    · visit_fault p (Ev.key []) h
+      · exact good_of_noFault (noFault_congr (by simp) (by simp) hq) (by simp)
+      · exact stopped_good hq
+    · exact stepKey_good _ _ (noFault_congr (by simp) (by simp) h)
+  simp only [hX, Bool.false_eq_true, if_false]
+  clear hX
+  by_cases hX : (p.state.current.major == stKey) = true
+  · simp only [hX, if_true]
+    exact stepKey_good _ _ h
+  simp only [hX, Bool.false_eq_true, if_false]
+  clear hX
+  by_cases hX : (p.state.current.major == stElem) = true
+  · simp only [hX, if_true]
+    exact stepValue_good _ _ (noFault_congr (by simp) (by simp) h)
+  simp only [hX, Bool.false_eq_true, if_false]
+  clear hX
+  exact good_of_noFault h (by simp)
+
+end SF.Cbor.Parse
